@@ -44,7 +44,11 @@ type solveResult struct {
 }
 
 func runSolver(s solverSpec, file string, timeoutS, seed int) solveResult {
-	ctx, cancel := context.WithTimeout(context.Background(), time.Duration(timeoutS+3)*time.Second)
+	return runSolverCtx(context.Background(), s, file, timeoutS, seed)
+}
+
+func runSolverCtx(parent context.Context, s solverSpec, file string, timeoutS, seed int) solveResult {
+	ctx, cancel := context.WithTimeout(parent, time.Duration(timeoutS+3)*time.Second)
 	defer cancel()
 	argv := s.argv(file, timeoutS, seed)
 	t0 := time.Now()
@@ -285,18 +289,30 @@ func (s *Solver) solve(o *Oblig) {
 		all = append(all, res)
 	}
 	if !o.quickOnly && !o.Cover && res.verdict != "unsat" && res.verdict != "sat" {
-		// fall back to the other two in parallel
-		ch := make(chan solveResult, 2)
+		// fall back to the other two solvers and to the first one under other random seeds, in
+		// parallel: quantifier instantiation is seed-sensitive, and any `unsat` is a proof
+		altSeeds := []int{s.seed + 7919, s.seed + 104729, s.seed + 1299709}
+		ch := make(chan solveResult, 2+len(altSeeds))
+		pctx, pcancel := context.WithCancel(context.Background())
 		for _, sv := range solvers[1:] {
-			go func(sv solverSpec) { ch <- runSolver(sv, file, t2, s.seed) }(sv)
+			go func(sv solverSpec) { ch <- runSolverCtx(pctx, sv, file, t2, s.seed) }(sv)
 		}
-		for i := 0; i < 2; i++ {
+		for _, sd := range altSeeds {
+			go func(sd int) {
+				r := runSolverCtx(pctx, solvers[0], file, t2, sd)
+				r.solver += fmt.Sprintf("(seed %d)", sd)
+				ch <- r
+			}(sd)
+		}
+		for i := 0; i < 2+len(altSeeds); i++ {
 			r := <-ch
 			all = append(all, r)
 			if res.verdict != "unsat" && res.verdict != "sat" && (r.verdict == "unsat" || r.verdict == "sat") {
 				res = r
+				break // the remaining runs are cancelled
 			}
 		}
+		pcancel()
 	}
 	if s.tier == "thorough" && res.verdict == "unsat" && !o.Cover {
 		// require a second, independent solver to agree (best effort: an
